@@ -26,11 +26,11 @@ pub fn names(args: &[String]) {
     println!("{}", json!({"commands": n, "mismatches": 0, "bad": []}));
 }
 
-const SETUP: &str = "arr = array a \"b c\" \"\"\nmp = map\nmap_put ${mp} k v\nst = set_new x y\nby = string_to_bytes héllo\nrel = array z\nrelease ${rel}\nv = set value\n";
+const SETUP: &str = "arr = array a \"b c\" \"\"\nmp = map\nmap_put ${mp} k v\nst = set_new x y\nby = string_to_bytes héllo\nrel = array z\nrelease ${rel}\nv = set value\ncarr = array c\narray_push ${carr} ${carr}\ncmp = map\ncin = array\nmap_put ${cmp} inner ${cin}\narray_push ${cin} ${cmp}\n";
 fn instantiate(kind: &str, ctx: &Context, prev: &Option<String>) -> String {
     let h = |k: &str| ctx.variables.get(k).cloned().unwrap_or_default();
     match kind {
-        "L" => h("arr"), "M" => h("mp"), "S" => h("st"), "Y" => h("by"), "R" => h("rel"), "B" => "handle:zzzzzzzzzzzzzzzzzzzz".into(),
+        "L" => h("arr"), "M" => h("mp"), "S" => h("st"), "Y" => h("by"), "R" => h("rel"), "CL" => h("carr"), "CM" => h("cmp"), "B" => "handle:zzzzzzzzzzzzzzzzzzzz".into(),
         "PREV" => prev.clone().unwrap_or_default(),
         "E" => String::new(), "0" => "0".into(), "1" => "1".into(), "-1" => "-1".into(), "5" => "5".into(), "HUGE" => "99999999999999999999".into(), "I64" => "9223372036854775808".into(),
         "DEC" => "1.5".into(), "W" => "abc".into(), "MB" => "héllo😀".into(), "SP" => "a b".into(), "QT" => "say \"hi\" #now".into(), "QT2" => "a b #c\"d 'e".into(), "NL" => "two\nlines".into(),
